@@ -143,6 +143,16 @@ def run_case(case, ctx):
             if not np.all(np.abs(v - prod) <= 1e-14):
                 ctx.violation("zero-covariance-product", "%s with zero covariance is not the product of the marginals" % name,
                               observed=float(np.max(np.abs(v - prod))))
+    # a long array (the grid tiled to ~5000 points): block-wise evaluation must not depend on the position
+    if case.get("grid") != "T" and abs(r) in (0.0, 0.5, 0.93, 0.99999):
+        reps = 5000 // len(x) + 1
+        xl, yl = np.tile(x, reps), np.tile(y, reps)
+        vl = np.asarray(ctx.call(ik.gaussian, xl, yl, mu=np.array(mu), sigma=sigma), dtype=float)
+        ctx.valid()
+        if vl.shape != xl.shape or not np.all(np.abs(vl - np.tile(ref, reps)) <= TOL):
+            bad = int(np.nanargmax(np.abs(vl - np.tile(ref, reps)))) if vl.shape == xl.shape else -1
+            ctx.violation("accuracy", "gaussian on a %d-point array differs from the reference (first bad index %d)" % (len(xl), bad),
+                          observed=float(vl[bad]) if bad >= 0 else list(vl.shape), expected=float(np.tile(ref, reps)[bad]) if bad >= 0 else len(xl), extra={"r": r})
     # one-point arrays and x/y roles: P(X<=x, Y<=y) with unequal marginals
     for a, b in ((0.3, -1.0), (2.0, 0.0)):
         v1 = np.asarray(ctx.call(ik.gaussian, np.array([mu[0] + a * sx]), np.array([mu[1] + b * sy]), mu=np.array(mu), sigma=sigma), dtype=float)
